@@ -6,9 +6,10 @@ happens when the key is missing (`required`, `default`, `default = "fn"`, implic
 Anything the model does not understand (an unknown attribute, predicate, type or container attribute) raises:
 a broken tie, never a silently wrong schema.
 
-`PlanOptions` is not translated: it derives Serialize/Deserialize but is never written to or read from disk
-(no serde_json call touches it); `persisted_sites()` asserts the set of (de)serialisation call sites that
-this claim rests on.
+`PlanOptions` is not translated: it derives Serialize/Deserialize but is never written to or read from disk.
+`persisted_sites()` finds every `serde_json::{to_*,from_*}` call of the non-test sources and classifies the type that
+crosses it (Plan, Vec<HistoryEntry>, or a stdout document of output.rs / json!); a call it cannot classify raises,
+so a newly persisted type does not go unnoticed.
 
 Also usable from Python: `extract()` returns the schema as plain data (used by checks/c17.py to build requests).
 """
@@ -33,7 +34,7 @@ SKIP = {"String::is_empty": "strEmpty", "is_empty_path": "pathEmpty", "Option::i
 # the skip predicate must be one that is meaningful for the field type (else rustc rejects it or we do not know it)
 SKIP_TYPE = {"strEmpty": "str", "pathEmpty": "path", "optNone": "opt", "vecEmpty": "vec"}
 # fields that are known to be dropped on writing and required on reading (KNOWN_FINDINGS.txt, property C17)
-KNOWN_BAD = [("MatchHunk", "replace"), ("Rename", "new_path")]
+KNOWN_BAD = []   # repaired by repo commit 7e5290d; anything the schema check reports now is new
 
 
 class SchemaError(RuntimeError):
@@ -257,27 +258,125 @@ def parse_enum(src, name):
     return {"kind": "enum", "name": name, "variants": variants}
 
 
-# (file, regex) of every place a persisted type crosses serde_json; if this set changes the claim
-# "these are the persisted types" has to be re-examined
-SITES = [
-    ("renamify-core/src/scanner.rs", r"serde_json::to_writer_pretty\(writer, plan\)"),
-    ("renamify-core/src/apply.rs", r"serde_json::to_string_pretty\(plan\)"),
-    ("renamify-core/src/undo.rs", r"let (?:mut )?plan: Plan = serde_json::from_str\(&plan_json\)"),
-    ("renamify-core/src/operations/apply.rs", r"serde_json::from_str\(&content\)"),
-    ("renamify-core/src/history.rs", r"serde_json::to_writer_pretty\(writer, &self\.entries\)"),
-    ("renamify-core/src/history.rs", r"serde_json::from_reader\(reader\)"),
-]
+# ------------------------------------------------------------------------------------------------
+# which types are persisted: every serde_json call of the non-test sources is found and classified
+
+SERDE_CALL = re.compile(r"serde_json::(to_writer_pretty|to_writer|to_string_pretty|to_string|to_vec_pretty|to_vec|to_value|"
+                        r"from_reader|from_str|from_slice|from_value)\s*(?:::<([^>]*(?:<[^>]*>)?[^>]*)>)?\s*\(")
+# files whose serde_json calls build machine-readable *output* (stdout documents: C19's subject), not persisted state
+OUTPUT_FILES = {"renamify-core/src/output.rs"}
+PERSISTED = {"Plan", "HistoryEntry"}
+
+
+def non_test_source(path):
+    src = strip_comments(open(path).read())
+    # drop `#[cfg(test)] mod name { ... }` blocks (a single cfg(test) item elsewhere does not hide the rest of the file)
+    while True:
+        m = re.search(r"#\[cfg\(test\)\]\s*(?:pub\s+)?mod\s+\w+\s*\{", src)
+        if not m:
+            return src
+        depth, i = 1, m.end()
+        while depth and i < len(src):
+            depth += {"{": 1, "}": -1}.get(src[i], 0)
+            i += 1
+        src = src[:m.start()] + src[i:]
+
+
+def call_args(src, open_paren):
+    """text of the argument list starting after `(` at index open_paren"""
+    depth, i, instr = 1, open_paren + 1, False
+    while depth and i < len(src):
+        c = src[i]
+        if instr:
+            if c == "\\":
+                i += 1
+            elif c == '"':
+                instr = False
+        elif c == '"':
+            instr = True
+        elif c in "([{":
+            depth += 1
+        elif c in ")]}":
+            depth -= 1
+        i += 1
+    return src[open_paren + 1:i - 1]
+
+
+def enclosing_fn(src, pos):
+    """(name, signature text up to the body) of the innermost `fn` that starts before pos"""
+    best = None
+    for m in re.finditer(r"\bfn\s+(\w+)\s*(?:<[^{;]*?>)?\s*\(", src[:pos]):
+        best = m
+    if best is None:
+        return None, ""
+    j = src.find("{", best.end())
+    return best.group(1), src[best.start():j if j >= 0 else best.end()]
+
+
+def norm_expr(e):
+    e = re.sub(r"\s+", "", e)
+    return re.sub(r"^(?:&mut|&)+", "", e)
+
+
+def classify_call(rel, src, m):
+    """-> (kind 'write'|'read'|'output', type name or None)"""
+    api = m.group(1)
+    args = split_top(call_args(src, m.end() - 1))
+    fname, sig = enclosing_fn(src, m.start())
+    where = f"{rel}: serde_json::{api} in fn {fname}"
+    if rel in OUTPUT_FILES:
+        return "output", None
+    if api.startswith("to_"):
+        subject = norm_expr(args[-1]) if args else ""
+        if subject in ("plan", "self.plan"):
+            return "write", "Plan"
+        if subject in ("self.entries", "entries"):
+            return "write", "HistoryEntry"
+        if subject.startswith("json!("):
+            return "output", None
+        raise SchemaError(f"serde_schema: {where}: serialised expression {subject!r} not classified "
+                          "(a new type may be persisted)")
+    # from_*: turbofish, the annotation of the `let` the call initialises, the function's return type, the file
+    stmt_start = max(src.rfind(";", 0, m.start()), src.rfind("{", 0, m.start())) + 1
+    stmt = src[stmt_start:m.start()]
+    ann = re.search(r"let\s+(?:mut\s+)?\w+\s*:\s*([^=]+?)\s*=", stmt)
+    for text in (m.group(2), ann.group(1) if ann else None):
+        if text:
+            t = re.sub(r"\s+", "", text)
+            if re.fullmatch(r"(?:crate::scanner::|scanner::)?Plan", t):
+                return "read", "Plan"
+            if re.fullmatch(r"Vec<(?:crate::history::)?HistoryEntry>", t):
+                return "read", "HistoryEntry"
+            raise SchemaError(f"serde_schema: {where}: deserialised type {t!r} not classified")
+    ret = re.search(r"->\s*(.+)$", sig, re.S)
+    if ret and re.search(r"\bPlan\b", ret.group(1)):
+        return "read", "Plan"
+    if rel.endswith("history.rs") and ret and re.search(r"\bSelf\b|\bHistory\b", ret.group(1)):
+        return "read", "HistoryEntry"
+    raise SchemaError(f"serde_schema: {where}: cannot tell which type is deserialised")
 
 
 def persisted_sites(repo):
-    counts = []
-    for f, rx in SITES:
-        src = strip_comments(open(os.path.join(repo, f)).read())
-        n = len(re.findall(rx, src))
-        if n == 0:
-            raise SchemaError(f"serde_schema: (de)serialisation site {rx!r} no longer found in {f}")
-        counts.append((f, rx, n))
-    return counts
+    """every serde_json call outside tests, classified; raises if a call cannot be classified or if a persisted
+    type is no longer both written and read"""
+    found = []
+    for top in ("renamify-core/src", "renamify-cli/src"):
+        for dp, dn, fn in os.walk(os.path.join(repo, top)):
+            dn.sort()
+            for f in sorted(fn):
+                if not f.endswith(".rs"):
+                    continue
+                path = os.path.join(dp, f)
+                rel = os.path.relpath(path, repo)
+                src = non_test_source(path)
+                for m in SERDE_CALL.finditer(src):
+                    kind, ty = classify_call(rel, src, m)
+                    found.append((rel, enclosing_fn(src, m.start())[0], m.group(1), kind, ty))
+    for ty in PERSISTED:
+        for kind in ("write", "read"):
+            if not any(k == kind and t == ty for _, _, _, k, t in found):
+                raise SchemaError(f"serde_schema: no {kind} site of {ty} found any more; the persistence code moved")
+    return found
 
 
 def extract(repo=None):
@@ -424,10 +523,7 @@ def render(schema):
             out += ["]", ""]
     out += ["/-- `.renamify/history.json` is a `Vec<HistoryEntry>` -/",
             "def historyTy : Ty := .vec historyEntryTy", "",
-            "/-- fields recorded in KNOWN_FINDINGS.txt (property C17) as dropped on writing but required on reading -/",
-            "def knownBad : List (Bytes × Bytes) := ["
-            + ", ".join(f"({blit(a)}, {blit(b)})" for a, b in KNOWN_BAD) + "]",
-            "", "end Gen", ""]
+            "end Gen", ""]
     return "\n".join(out)
 
 
@@ -441,6 +537,8 @@ def render_verdict(schema):
         ok = wf(schema, root) and not off
         out += [f"def {lname}Verdict : Bool := {'true' if ok else 'false'}",
                 f"theorem {lname}Verdict_eq : SchemaOk {LEAN_NAME[root]} = {lname}Verdict := by decide",
+                *([f"theorem {lname}Verdict_is_true : {lname}Verdict = true := rfl"] if ok else
+                  [f"-- no {lname}Verdict_is_true: the schema check fails (see {lname}Offending)"]),
                 f"def {lname}Offending : List (Bytes × Bytes) := ["
                 + ", ".join(f"({blit(a)}, {blit(b)})" for a, b in off) + "]"
                 + "  -- " + (", ".join(f"{a}.{b}" for a, b in off) or "none"),
